@@ -121,6 +121,19 @@ func (q Q) build() bluge.Query {
 			r.SetBoost(q.Boost)
 		}
 		return r
+	case "geobox":
+		// Min/Max are the west/east longitudes, MinS/MaxS unused; the box spans Slop degrees of latitude around 0
+		r := bluge.NewGeoBoundingBoxQuery(q.Min, float64(q.Slop), q.Max, -float64(q.Slop)).SetField("loc")
+		if q.Boost != 0 {
+			r.SetBoost(q.Boost)
+		}
+		return r
+	case "geodist":
+		r := bluge.NewGeoDistanceQuery(q.Min, q.Max, fmt.Sprintf("%dkm", q.Slop)).SetField("loc")
+		if q.Boost != 0 {
+			r.SetBoost(q.Boost)
+		}
+		return r
 	case "matchall":
 		r := bluge.NewMatchAllQuery()
 		if q.Boost != 0 {
@@ -181,11 +194,22 @@ func phraseFrom(t *rapid.T, c Corpus, field string, n int) []string {
 }
 
 var leafKinds = []string{"term", "term", "term", "term", "match", "match", "matchphrase", "multiphrase", "prefix", "wildcard", "regexp", "fuzzy",
-	"termrange", "numrange", "numrange", "daterange", "matchall"}
+	"termrange", "numrange", "numrange", "daterange", "matchall",
+	"term", "term", "match", "matchphrase", "prefix", "wildcard", "regexp", "fuzzy", "termrange", "numrange", "daterange", "matchall", "term", "match", "geo"}
 
 func genLeaf(t *rapid.T, c Corpus) Q {
 	q := Q{Kind: rapid.SampledFrom(leafKinds).Draw(t, "leafKind"), Field: rapid.SampledFrom([]string{"body", "body", "title"}).Draw(t, "field"), Boost: genBoostQ(t)}
+	if q.Kind == "geo" { // geo queries cost tens of milliseconds each: about 3 % of the leaves
+		q.Kind = rapid.SampledFrom([]string{"geobox", "geodist"}).Draw(t, "geoKind")
+	}
 	switch q.Kind {
+	case "geobox":
+		w := rapid.IntRange(-10, 6).Draw(t, "west")
+		q.Min, q.Max = float64(w), float64(rapid.IntRange(w+2, 10).Draw(t, "east"))
+		q.Slop = rapid.IntRange(2, 10).Draw(t, "latSpan")
+	case "geodist":
+		q.Min, q.Max = float64(rapid.IntRange(-8, 8).Draw(t, "lon")), float64(rapid.IntRange(-8, 8).Draw(t, "lat"))
+		q.Slop = rapid.SampledFrom([]int{200, 500, 1000}).Draw(t, "km")
 	case "term":
 		q.Text = rapid.SampledFrom(vocab).Draw(t, "term")
 	case "match":
@@ -296,6 +320,7 @@ type queryStat struct {
 	termDepth  int
 	judgedSum  bool
 	judgedLin  bool
+	excluded   string // key of the known finding whose class this query belongs to
 }
 
 type explainStats struct {
@@ -320,6 +345,7 @@ func countKinds(q Q, into map[string]int) {
 
 // evaluator runs queries on one index, memoising standalone runs.
 type evaluator struct {
+	corpus Corpus
 	x    *idx
 	memo map[string]map[int]float64
 	st   *explainStats
@@ -459,7 +485,7 @@ func propExplain(c ExplainCase, st *explainStats) *vlib.Failure {
 		return f
 	}
 	defer x.close()
-	e := &evaluator{x: x, memo: map[string]map[int]float64{}, st: st}
+	e := &evaluator{corpus: c.Corpus, x: x, memo: map[string]map[int]float64{}, st: st}
 	for qi, q := range c.Queries {
 		countKinds(q, st.kinds)
 		qs := queryStat{kind: q.Kind}
@@ -477,7 +503,96 @@ func propExplain(c ExplainCase, st *explainStats) *vlib.Failure {
 	return nil
 }
 
+const keyFuzzy = "fuzzy-nonpositive-term-boost"
+
+// osa is the optimal-string-alignment distance (insert, delete, substitute, transpose adjacent),
+// the distance of the Levenshtein automata the fuzzy searcher builds (transpositions enabled).
+func osa(a, b string) int {
+	ra, rb := []rune(a), []rune(b)
+	d := make([][]int, len(ra)+1)
+	for i := range d {
+		d[i] = make([]int, len(rb)+1)
+		d[i][0] = i
+	}
+	for j := range d[0] {
+		d[0][j] = j
+	}
+	for i := 1; i <= len(ra); i++ {
+		for j := 1; j <= len(rb); j++ {
+			cost := 1
+			if ra[i-1] == rb[j-1] {
+				cost = 0
+			}
+			v := d[i-1][j] + 1
+			if x := d[i][j-1] + 1; x < v {
+				v = x
+			}
+			if x := d[i-1][j-1] + cost; x < v {
+				v = x
+			}
+			if i > 1 && j > 1 && ra[i-1] == rb[j-2] && ra[i-2] == rb[j-1] {
+				if x := d[i-2][j-2] + 1; x < v {
+					v = x
+				}
+			}
+			d[i][j] = v
+		}
+	}
+	return d[len(ra)][len(rb)]
+}
+
+// degenerateFuzzy reports whether q contains a fuzzy leaf one of whose candidate terms in this
+// corpus lies at an edit distance >= the length of the shorter of the two terms: the fuzzy
+// searcher boosts such a candidate by 1 - distance/minLen <= 0 (known finding keyFuzzy).
+func degenerateFuzzy(q Q, c Corpus) (bool, string) {
+	if q.Kind == "fuzzy" {
+		seen := map[string]bool{}
+		for _, d := range c.Docs {
+			for _, w := range d.tokens(q.Field) {
+				if seen[w] || w == q.Text {
+					continue
+				}
+				seen[w] = true
+				if q.PrefixLen > 0 && (len(q.Text) < q.PrefixLen || !strings.HasPrefix(w, q.Text[:q.PrefixLen])) {
+					continue
+				}
+				minLen := len([]rune(w))
+				if l := len([]rune(q.Text)); l < minLen {
+					minLen = l
+				}
+				if dist := osa(q.Text, w); dist <= q.Fuzz && dist >= minLen {
+					return true, fmt.Sprintf("fuzzy %q (fuzziness %d) reaches the indexed term %q at distance %d >= min length %d", q.Text, q.Fuzz, w, dist, minLen)
+				}
+			}
+		}
+		return false, ""
+	}
+	for _, l := range [][]Q{q.Must, q.Should, q.MustNot} {
+		for _, ch := range l {
+			if deg, why := degenerateFuzzy(ch, c); deg {
+				return true, why
+			}
+		}
+	}
+	return false, ""
+}
+
 func propQuery(e *evaluator, q Q, qs *queryStat) *vlib.Failure {
+	if deg, why := degenerateFuzzy(q, e.corpus); deg {
+		if _, listed := vlib.IsKnown("C17", keyFuzzy); listed {
+			qs.excluded = keyFuzzy
+			return nil // the class of the known finding: counted, not judged
+		}
+		f := propQuery1(e, q, qs)
+		if f != nil && (f.Key == "score-not-finite-positive" || strings.HasPrefix(f.Key, "boost-") || strings.HasPrefix(f.Key, "compound-")) {
+			f.Key, f.Msg = keyFuzzy, why+": "+f.Msg
+		}
+		return f
+	}
+	return propQuery1(e, q, qs)
+}
+
+func propQuery1(e *evaluator, q Q, qs *queryStat) *vlib.Failure {
 	x, st := e.x, e.st
 	plain, f := e.scores(q)
 	if f != nil {
@@ -589,6 +704,12 @@ func TestC17Explain(t *testing.T) {
 		corpusHash := fmt.Sprintf("%x", vlib.Hash64(vlib.Canon(c.Corpus)))
 		for i, qs := range st.perQuery {
 			cls := []string{"explain", "explain:root:" + qs.kind}
+			if qs.excluded != "" {
+				desc, _ := vlib.IsKnown("C17", qs.excluded)
+				ev.Known(qs.excluded, desc)
+				ev.Case(corpusHash+vlib.Canon(c.Queries[i]), false, "explain:excluded:"+qs.excluded)
+				continue
+			}
 			if qs.hits == 0 {
 				cls = append(cls, "explain:no-hits")
 			}
